@@ -419,10 +419,26 @@ void prop(Src& s, Ctx& ctx) {
                     if (++guard > nframes + 5) break;
                 }
             } else if (style == 5) {
-                FileSniffer assigned(std::move(*sn));
-                *sn = std::move(assigned);   // move assignment back
+                // move assignment over a sniffer that has already been used on a capture of ANOTHER link type (one frame read):
+                // nothing of the old capture may survive in the target
+                PcapFile other_file;
+                other_file.linktype = link.dlt == DLT_RAW ? 1u : 101u;   // Ethernet, or raw IP
+                {
+                    PcapRecord r;
+                    r.sec = 1; r.usec = 2;
+                    static const uint8_t IPV4[] = {0x45, 0, 0, 20, 0, 1, 0, 0, 64, 253, 0, 0, 10, 0, 0, 1, 10, 0, 0, 2};
+                    if (other_file.linktype == 1u) { r.bytes.assign(12, 0x02); r.bytes.push_back(0x08); r.bytes.push_back(0x00); }
+                    r.bytes.insert(r.bytes.end(), IPV4, IPV4 + sizeof IPV4);
+                    other_file.records.push_back(r);
+                    other_file.records.push_back(r);
+                }
+                std::vector<uint8_t> other_image = pcap_encode(other_file), other_keep;
+                FILE* ofp = mem_file(other_image, other_keep);
+                FileSniffer assigned(ofp);
+                { Packet first(assigned.next_packet()); (void)first; }
+                assigned = std::move(*sn);   // (read from the assigned-to object itself: a further move would hide stale state)
                 for (;;) {
-                    Packet pk(sn->next_packet());
+                    Packet pk(assigned.next_packet());
                     if (!pk) break;
                     got.push_back({(uint32_t)pk.timestamp().seconds(), (uint32_t)pk.timestamp().microseconds(), layer_chain(*pk.pdu())});
                     if (++guard > nframes + 5) break;
